@@ -112,10 +112,6 @@ func nethttpParse(rest []byte, method string) (status int, reason string, hdr ht
 // each is a predicate over the program (and the observation), never the
 // property id.
 func classify(e *expect, problem string, wireChunked bool, got []byte, stray []byte) string {
-	eff := e.declared // size in effect for the stream: declared, or the Content-Length set by hand afterwards
-	if e.handConflict() {
-		eff = e.handCL
-	}
 	switch {
 	case e.sizeLost():
 		// SetBodyStream ran while the status was 1xx/204/304; the status was changed back afterwards.
@@ -128,7 +124,8 @@ func classify(e *expect, problem string, wireChunked bool, got []byte, stray []b
 	case problem == "cl-and-te" && e.handConflict() && !e.bodiless():
 		// Content-Length set by hand while chunked coding was in effect for the stream: both fields sent, body not chunked
 		return "handset-content-length-keeps-chunked-coding"
-	case problem == "overrun" && e.kind == "stream" && !e.bodiless() && eff >= 0 && eff < e.produced:
+	case problem == "overrun" && e.kind == "stream" && !e.bodiless():
+		// the head announces Content-Length n (declared size, or a value set by hand) and more than n bytes of the stream follow
 		return "fixedsize-stream-overrun"
 	}
 	return problem
@@ -195,11 +192,12 @@ func judge(cs *caseSpec, wire []byte, calls []int, closed bool) *verdict {
 			break
 		}
 		if closeAnnounced {
-			fail(i, e, "handler-after-close", "handler invoked although the previous response announced Connection: close", nil, nil)
+			// a property of the previous response: it announced close (or is delimited by close) and the server went on
+			fail(i-1, exps[i-1], "handler-after-close", fmt.Sprintf("response %d announced Connection: close (or is delimited by the end of the connection), yet the handler was invoked for request %d", i-1, i), nil, nil)
 			return v
 		}
 		if endJustified {
-			fail(i, e, "handler-after-abort", "handler invoked after a mis-sized stream (connection must be closed right after)", nil, nil)
+			fail(i-1, exps[i-1], "handler-after-abort", fmt.Sprintf("handler invoked for request %d after the mis-sized stream of response %d (connection must be closed right after)", i, i-1), nil, nil)
 			return v
 		}
 		rest := wire[off:]
@@ -234,6 +232,20 @@ func judge(cs *caseSpec, wire []byte, calls []int, closed bool) *verdict {
 			// a complete response carrying the whole stream is fine (a hand-set value made the framing
 			// self-consistent); it is then judged like any other response
 			full := m.Fatal == "" && !m.HasAny(badFlags) && bytes.Equal(m.Body, e.content)
+			if !full && m.HeadEnd > 0 && (m.Has(h1.FCLandTE) || m.BodyKind == "chunked" && len(m.Get("Content-Length")) > 0) {
+				fail(i, e, "cl-and-te", fmt.Sprintf("response carries both Content-Length %v and Transfer-Encoding %v; bytes after the head: %s", m.Get("Content-Length"), m.Get("Transfer-Encoding"), mon.Short(rest[m.HeadEnd:], 80)), nil, nil)
+				return v
+			}
+			if !full && len(calls) != i+1 {
+				// the server went on with the next request, so it did not abort this response
+				if m.Fatal != "" {
+					// (typically cut short by a later abort that dropped the write buffer)
+					fail(i, e, "incomplete", fmt.Sprintf("reference parser: %s (flags %v) in %s", m.Fatal, m.FlagList(), mon.Short(rest, 300)), nil, nil)
+				} else {
+					fail(i, e, "handler-after-abort", fmt.Sprintf("stream declared %d yields %d, response carries %d body bytes, and the handler was invoked for the next request (connection not closed right after)", e.declared, e.produced, len(m.Body)), nil, nil)
+				}
+				return v
+			}
 			if !full {
 				// mis-sized rule: never more than the announced size on the wire, prefix of the stream, close right after.
 				v.ev("lenient_missized_rule_applied")
@@ -253,9 +265,6 @@ func judge(cs *caseSpec, wire []byte, calls []int, closed bool) *verdict {
 				}
 				raw := rest[m.HeadEnd:]
 				switch {
-				case m.Has(h1.FCLandTE) || m.BodyKind == "chunked" && len(m.Get("Content-Length")) > 0:
-					fail(i, e, "cl-and-te", fmt.Sprintf("response carries both Content-Length %v and Transfer-Encoding %v; body bytes %s", m.Get("Content-Length"), m.Get("Transfer-Encoding"), mon.Short(raw, 80)), nil, nil)
-					return v
 				case m.BodyKind == "cl":
 					cl, _ := strconv.Atoi(strings.TrimSpace(m.Get("Content-Length")[0]))
 					if len(raw) > cl {
@@ -490,7 +499,8 @@ func judge(cs *caseSpec, wire []byte, calls []int, closed bool) *verdict {
 				what := fmt.Sprintf("%d byte(s) %s after the last response of the connection (which ends at offset %d)", len(next), mon.Short(next, 60), off)
 				fail(i, e, "stray", what, nil, next)
 				return v
-			case !bytes.HasPrefix(next, statusLineStart):
+			case !bytes.HasPrefix(next, statusLineStart) && !bytes.HasPrefix(statusLineStart, next):
+				// (a truncated status line is left to the next iteration: an aborted response may be cut anywhere)
 				stray := next
 				if k := bytes.Index(next, statusLineStart); k >= 0 {
 					stray = next[:k]
